@@ -99,3 +99,13 @@ Theorem C09_ramp_starts_at_activation : forall st now,
   is_cond_true (rs_conds st) CT_Active = false -> rolling_start st now = now.
 Proof. exact ramp_starts_at_activation. Qed.
 Print Assumptions C09_ramp_starts_at_activation.
+
+(** a creation limit that is zero or negative (a negative maxParallelPodCreation or slowStartAdditiveIncrease, which the
+    schema accepts) means: create nothing - the counts handed to the strategy are never negative *)
+Theorem C09_nonpositive_limit_creates_nothing : forall p, lp_max_creation p <= 0 -> calc_create p = 0.
+Proof. exact nonpositive_limit_creates_nothing. Qed.
+Print Assumptions C09_nonpositive_limit_creates_nothing.
+
+Theorem C09_counts_nonnegative : forall p, 0 <= calc_create p /\ 0 <= calc_delete p.
+Proof. exact create_count_nonnegative. Qed.
+Print Assumptions C09_counts_nonnegative.
